@@ -63,6 +63,11 @@ pub fn lib<R>(f: impl FnOnce() -> R) -> Result<R, String> {
     ARMED.with(|a| a.set(true));
     let r = std::panic::catch_unwind(std::panic::AssertUnwindSafe(f));
     ARMED.with(|a| a.set(false));
+    if r.is_err() {
+        // the panic machinery itself allocates (payload box); a panic is
+        // reported on its own, do not also count it as a run-time allocation
+        take_alloc_counts();
+    }
     r.map_err(|e| {
         if let Some(s) = e.downcast_ref::<&str>() {
             s.to_string()
